@@ -1307,7 +1307,7 @@ SUBCHECKS = [
              rule="EXHAUSTIVE over row ranges: 18 configurations of ham_heis/ising/XY/XXZ/j1j2/mbl/hubbard_hardcore/heis_2D, 2-4 "
                   "(thorough 5) spins, dense + sparse output formats, every 0<=ri<rf<=D: builder(ownership=(ri,rf)) == full[ri:rf]; "
                   "full == independent np.kron chain where unambiguous"),
-    SubCheck("ham_ownership_rand", run_ham_rand, s_ham_rand, examples=(60, 800), shards=(3, 6),
+    SubCheck("ham_ownership_rand", run_ham_rand, s_ham_rand, examples=(60, 600), shards=(3, 6),
              rule="random builder parameters, 2-7 (8) spins / 2-D lattices up to 3x3, parallel=True, drawn row ranges and an "
                   "MPI-style k-way split that must tile the full operator; nt: D>=16"),
 ]
